@@ -72,8 +72,10 @@ class ExecutionTimeout(BaseException):
 
 
 class deadline:
-    """`with deadline(30):` raises ExecutionTimeout in this (main) thread after 30 s of wall time,
-    and again every second after that in case the code under test swallowed it."""
+    """`with deadline(30):` raises ExecutionTimeout in this (main) thread after 30 s of *CPU time of this process*
+    (an unbounded loop burns CPU; a loaded machine or a stopped process does not count against the code under
+    test), and again every second after that in case the code under test swallowed it.  A wall-clock backstop
+    at 20x the budget catches an execution that blocks without using CPU."""
 
     def __init__(self, seconds: float):
         self.seconds = seconds
@@ -83,13 +85,17 @@ class deadline:
 
     def __enter__(self):
         import signal
+        self._old_prof = signal.signal(signal.SIGPROF, self._fire)
         self._old = signal.signal(signal.SIGALRM, self._fire)
-        signal.setitimer(signal.ITIMER_REAL, self.seconds, 1.0)
+        signal.setitimer(signal.ITIMER_PROF, self.seconds, 1.0)
+        signal.setitimer(signal.ITIMER_REAL, self.seconds * 20, 5.0)
         return self
 
     def __exit__(self, *a):
         import signal
+        signal.setitimer(signal.ITIMER_PROF, 0)
         signal.setitimer(signal.ITIMER_REAL, 0)
+        signal.signal(signal.SIGPROF, self._old_prof)
         signal.signal(signal.SIGALRM, self._old)
         return False
 
